@@ -116,6 +116,7 @@ type hookSummary struct {
 	SkipCloses     int            `json:"skip_closes"`    // ... by dagChannel.reportSkip (channel becomes skipped)
 	Merges         []int          `json:"merges"`         // sizes of the mergeValues calls of channel.get, sorted
 	CPDrains       int            `json:"cp_drains"`      // streams concatenated (drained and closed) by checkPointer.convertCheckPoint
+	InputCloses    int            `json:"input_closes"`   // ignored inputs of resumed calls closed by runner.run
 	OtherMerges    map[string]int `json:"other_merges,omitempty"`
 	CallbackCopies []int          `json:"callback_copies,omitempty"`
 	OtherCopies    map[string]int `json:"other_copies,omitempty"`
@@ -163,6 +164,8 @@ func summarise(ev []schema.VerifC19Event) hookSummary {
 				s.ChanCloses++
 			case strings.HasPrefix(e.Origin, "compose.streamReaderPacker.close<compose.(*dagChannel).reportSkip"):
 				s.SkipCloses++
+			case strings.HasPrefix(e.Origin, "compose.streamReaderPacker.close<compose.(*runner).run<"):
+				s.InputCloses++
 			default:
 				if strings.Contains(e.Origin, "<compose.convert<compose.(*streamConverter).convert") {
 					s.CPDrains++
@@ -264,7 +267,6 @@ func (engine) Run(ci any) lib.Result {
 	// verdict instead of changing it); settleHard bounds the wait.
 	var blocked, leaked []string
 	var sum hookSummary
-	var lastEv []schema.VerifC19Event
 	t0 := time.Now()
 	lastSig, quietSince, settled := "", time.Now(), false
 	for {
@@ -294,7 +296,6 @@ func (engine) Run(ci any) lib.Result {
 			}
 		}
 		ev := schema.VerifC19Snapshot()
-		lastEv = ev
 		sum = summarise(ev)
 		fmt.Fprintf(&sig, "ev=%d", len(ev))
 		if len(blocked) == 0 && len(leaked) == 0 && len(sum.Undrained) == 0 {
@@ -394,14 +395,8 @@ func (engine) Run(ci any) lib.Result {
 	}
 	res.Oracle = strings.Join(fails, "; ")
 
-	// ---- model case
-	if e.resumes == 0 {
-		if term, ok := coqCase(c, e, &sum); ok {
-			res.CoqTerm = term
-		}
-	} else if term, ok := coqInterruptCase(c, e, lastEv); ok {
-		// interrupt + resume: the model follows the run up to the first interrupt exit (the resumed
-		// segments are covered by the oracle only)
+	// ---- model case: the whole run, every call of an interrupted and resumed run included
+	if term, ok := coqCase(c, e, &sum); ok {
 		res.CoqTerm = term
 	}
 	res.Nontrivial = len(e.producers) > 0 && (len(sum.Copies) > 0 || len(sum.CallbackCopies) > 0 || sum.Streams > len(e.producers))
@@ -448,10 +443,11 @@ func unfinished(c *Case, e *env) string {
 	if c.Mode == "pregel" {
 		// END must be reached with no other node scheduled: the tasks of the last pass may only have
 		// generated END (a generated node would have been scheduled together with END and dropped)
-		if e.resumes > 0 {
-			return "" // resumed runs: the generator's layered shape guarantees it
+		var passes [][]string // the passes of every call, in order
+		for _, seg := range e.segs {
+			passes = append(passes, seg...)
 		}
-		if len(e.sched) == 0 { // END generated by START itself
+		if len(passes) == 0 { // END generated by START itself
 			gen := append([]int(nil), controls[START]...)
 			for bi := range c.StartBranches {
 				if log := e.brLog[[2]int{START, bi}]; len(log) > 0 {
@@ -466,14 +462,14 @@ func unfinished(c *Case, e *env) string {
 			return ""
 		}
 		occ := map[int]int{}
-		for _, b := range e.sched[:len(e.sched)-1] {
+		for _, b := range passes[:len(passes)-1] {
 			for _, key := range b {
 				if i, ok := nodeIndex(key); ok {
 					occ[i]++
 				}
 			}
 		}
-		for _, key := range e.sched[len(e.sched)-1] {
+		for _, key := range passes[len(passes)-1] {
 			x, ok := nodeIndex(key)
 			if !ok || x >= subBase {
 				continue
@@ -539,7 +535,7 @@ func coqGraph(nodes []NodeSpec, startBranches []BranchSpec, writeTo, controls ma
 // coqSched renders one run's schedule: START's pseudo task, then the recorded batches, each task
 // with the outcome of its branch conditions (the k-th execution of a node uses the k-th logged
 // evaluation of each of its branches; seen counts the executions across runs).
-func coqSched(e *env, sched [][]string, nodes []NodeSpec, startBranches []BranchSpec, startID int, idOf func(int) int, seen map[int]int) (string, bool) {
+func coqSched(e *env, sched [][]string, nodes []NodeSpec, startBranches []BranchSpec, startID int, idOf func(int) int, seen map[int]int, withStart bool) (string, bool) {
 	entry := func(id, local int, brs []BranchSpec) (string, bool) {
 		k := seen[id]
 		seen[id]++
@@ -553,11 +549,14 @@ func coqSched(e *env, sched [][]string, nodes []NodeSpec, startBranches []Branch
 		}
 		return lib.CoqPair(lib.CoqN(coqKey(local)), lib.CoqList(outs)), true
 	}
-	st, ok := entry(startID, START, startBranches)
-	if !ok {
-		return "", false
+	out := []string{}
+	if withStart {
+		st, ok := entry(startID, START, startBranches)
+		if !ok {
+			return "", false
+		}
+		out = append(out, lib.CoqList([]string{st}))
 	}
-	out := []string{lib.CoqList([]string{st})}
 	for _, b := range sched {
 		var items []string
 		for _, key := range b {
@@ -585,23 +584,39 @@ func coqSched(e *env, sched [][]string, nodes []NodeSpec, startBranches []Branch
 	return lib.CoqList(out), true
 }
 
-// coqCase renders the compiled graph (chanCall of START and of every node), the schedule (the
-// batches of completed tasks with the outcome of their branch conditions), the runs of the nested
+// coqCase renders the compiled graph (chanCall of START and of every node), the interrupt
+// configuration, the calls of the run (the first run and every resumed run), each with its schedule
+// (the batches of completed tasks with the outcome of their branch conditions), the runs of the nested
 // graphs (each with its own graph and schedule) and the hook observables (totals over all runs).
 func coqCase(c *Case, e *env, sum *hookSummary) (string, bool) {
 	e.mu.Lock()
 	defer e.mu.Unlock()
 	writeTo, controls := c.callsOf()
 	seen := map[int]int{}
-	top, ok := coqSched(e, e.sched, c.Nodes, c.StartBranches, START, func(i int) int { return i }, seen)
-	if !ok {
-		return "", false
+	if len(e.segs) != e.resumes+1 {
+		if !(len(e.segs) == 0 && e.resumes == 0) { // START -> END only: no task manager event at all
+			return "", false
+		}
 	}
-	// nested runs: task manager k >= 1 belongs to the outer node named in its first task
+	var segs []string
+	if len(e.segs) == 0 {
+		top, ok := coqSched(e, nil, c.Nodes, c.StartBranches, START, func(i int) int { return i }, seen, true)
+		if !ok {
+			return "", false
+		}
+		segs = append(segs, top)
+	}
+	for k, sched := range e.segs {
+		seg, ok := coqSched(e, sched, c.Nodes, c.StartBranches, START, func(i int) int { return i }, seen, k == 0)
+		if !ok {
+			return "", false
+		}
+		segs = append(segs, seg)
+	}
+	// nested runs: each belongs to the outer node named in its first task
 	var subs []string
 	runsOf := map[int]int{}
-	for tm := 1; tm < len(e.scheds); tm++ {
-		sched := e.scheds[tm]
+	for _, sched := range e.subScheds {
 		if len(sched) == 0 || len(sched[0]) == 0 {
 			return "", false // a nested run without a task cannot be attributed
 		}
@@ -620,7 +635,7 @@ func coqCase(c *Case, e *env, sum *hookSummary) (string, bool) {
 			sw[j], sc[j] = n.Succ, n.Succ
 		}
 		idOf := func(j int) int { return subBase*(outer+1) + j }
-		ss, ok := coqSched(e, sched, sub.Nodes, sub.StartBranches, subBase*(outer+1)+subStart, idOf, seen)
+		ss, ok := coqSched(e, sched, sub.Nodes, sub.StartBranches, subBase*(outer+1)+subStart, idOf, seen, true)
 		if !ok {
 			return "", false
 		}
@@ -628,15 +643,17 @@ func coqCase(c *Case, e *env, sum *hookSummary) (string, bool) {
 	}
 	// every execution of a nested graph node must have been attributed
 	fired := []uint64{}
-	for _, b := range e.sched {
-		for _, key := range b {
-			id, ok := nodeIndex(key)
-			if !ok || id >= subBase {
-				return "", false
-			}
-			fired = append(fired, coqKey(id))
-			if c.Nodes[id].Sub != nil {
-				runsOf[id]--
+	for _, seg := range e.segs {
+		for _, b := range seg {
+			for _, key := range b {
+				id, ok := nodeIndex(key)
+				if !ok || id >= subBase {
+					return "", false
+				}
+				fired = append(fired, coqKey(id))
+				if c.Nodes[id].Sub != nil {
+					runsOf[id]--
+				}
 			}
 		}
 	}
@@ -662,11 +679,13 @@ func coqCase(c *Case, e *env, sum *hookSummary) (string, bool) {
 	for i, n := range sum.Merges {
 		mgs[i] = lib.CoqNat(n)
 	}
-	return lib.CoqApp("mkR", lib.CoqBool(c.Mode != "pregel"), lib.CoqBool(c19Eager(c)),
-		coqGraph(c.Nodes, c.StartBranches, writeTo, controls, c.Mode == "workflow"), top, lib.CoqList(subs),
+	return lib.CoqApp("mkRS", lib.CoqBool(c.Mode != "pregel"), lib.CoqBool(c19Eager(c)),
+		coqGraph(c.Nodes, c.StartBranches, writeTo, controls, c.Mode == "workflow"),
+		coqKeys(c.IntBefore), coqKeys(c.IntAfter), lib.CoqList(segs), lib.CoqList(subs),
 		lib.CoqList(cps), lib.CoqNat(sum.ResolveCloses), lib.CoqNat(sum.UpdateCloses), lib.CoqNat(sum.ChanCloses), lib.CoqNat(sum.SkipCloses),
 		lib.CoqList(mgs), lib.CoqNList(fired),
-		lib.CoqNat(c.Handlers), lib.CoqList(sides), lib.CoqList(cbc)), true
+		lib.CoqNat(c.Handlers), lib.CoqList(sides), lib.CoqList(cbc),
+		lib.CoqNat(sum.CPDrains), lib.CoqNat(sum.InputCloses)), true
 }
 
 // streamSides: how many sides of a lambda's own paradigm are streams (its callbacks are
@@ -684,44 +703,6 @@ func streamSides(n *NodeSpec) int {
 		return 2
 	}
 	return 0
-}
-
-// coqInterruptCase renders the first segment of an interrupted run: graph, schedule up to the
-// pass whose calculateNextTasks was followed by the interrupt exit, and the accounting events
-// logged until the interrupt error was returned. Non-eager modes without nested graphs only.
-func coqInterruptCase(c *Case, e *env, ev []schema.VerifC19Event) (string, bool) {
-	if c.Mode == "workflow" || e.seg1 < 0 {
-		return "", false
-	}
-	for i := range c.Nodes {
-		if c.Nodes[i].Sub != nil {
-			return "", false
-		}
-	}
-	if e.seg1 > len(ev) {
-		return "", false
-	}
-	sum := summarise(ev[:e.seg1])
-	e.mu.Lock()
-	defer e.mu.Unlock()
-	writeTo, controls := c.callsOf()
-	seen := map[int]int{}
-	top, ok := coqSched(e, e.sched1, c.Nodes, c.StartBranches, START, func(i int) int { return i }, seen)
-	if !ok {
-		return "", false
-	}
-	cps := make([]string, len(sum.Copies))
-	for i, n := range sum.Copies {
-		cps[i] = lib.CoqZ(int64(n))
-	}
-	mgs := make([]string, len(sum.Merges))
-	for i, n := range sum.Merges {
-		mgs[i] = lib.CoqNat(n)
-	}
-	return lib.CoqApp("mkI", lib.CoqBool(c.Mode != "pregel"),
-		coqGraph(c.Nodes, c.StartBranches, writeTo, controls, false), top,
-		lib.CoqList(cps), lib.CoqNat(sum.ResolveCloses), lib.CoqNat(sum.UpdateCloses), lib.CoqNat(sum.ChanCloses), lib.CoqNat(sum.SkipCloses),
-		lib.CoqList(mgs), lib.CoqNat(sum.CPDrains)), true
 }
 
 func nodeIndex(key string) (int, bool) {
@@ -839,8 +820,11 @@ func tagsOf(c *Case, e *env, o *Obs) []string {
 	if e.resumes > 0 {
 		t = append(t, "has:interrupt-resume")
 	}
-	if len(e.scheds) > 1 && e.resumes == 0 {
+	if len(e.subScheds) > 0 {
 		t = append(t, "has:nested-run")
+	}
+	if e.resumes > 0 {
+		t = append(t, fmt.Sprintf("resumes:%d", e.resumes))
 	}
 	if len(c.IntBefore)+len(c.IntAfter) > 0 {
 		t = append(t, "opt:interrupt")
